@@ -5,7 +5,10 @@
  * Modules: A and C send, B receives (subscribed to "t" and to M_PS_MOD_STOPPED).
  * Per job: SCRIPT = sequence of steps (1 A tells B, 2 C tells B, 3 A publishes "t", 4 C publishes "t", 5 A broadcasts,
  * 6 A sends B the poison pill, 7 C is paused (system notification naming C), 8 pause B, 9 resume B, 10 one dispatch,
- * 11 A publishes "h", to which B holds a HIGH-priority subscription),
+ * 11 A publishes "h", to which B holds a HIGH-priority subscription, 12 A publishes "l", to which B holds a
+ * LOW-priority subscription: held back until the next event for B or the loop-stop flush),
+ * SELFPILL (B sends ITSELF the poison pill from its handler while handling its first message: everything sent before -
+ * the whole script - is still delivered, then B stops),
  * MODE (0 dispatch until drained, 1 quit + flush, 2 blocking loop ended by the handler), BATCH (batch size of B).
  * TB (B has a token bucket of burst TB and spends one token per delivered message by answering the sender: the pill
  * must stop it even with no token left), CAP (pipe capacity; with more messages than fit only ORDER is asserted).
@@ -45,6 +48,10 @@ static void my_action(int who, int kind, m_mod_t *m, const m_queue_t *q) {
 #if TB
     if (kind == VF_CB_EVT && who == 1) m_mod_ps_tell(m, vf_mods[0], &ack, 0);    /* spends one of B's tokens (may be refused: EAGAIN) */
 #endif
+#ifdef SELFPILL
+    static _Bool pill_done;
+    if (kind == VF_CB_EVT && who == 1 && !pill_done) { pill_done = 1; int r = m_mod_ps_poisonpill(m, m); VF_CHECK(r == 0, "B sends itself the pill"); }
+#endif
 #if MODE == 2
     static _Bool quit_done;
     if (kind == VF_CB_EVT && who == 1 && vf_nlog[1] >= expect_total && !quit_done) { quit_done = 1; int r = m_ctx_quit(code); VF_CHECK(r == 0, "quit from the handler"); }
@@ -61,6 +68,7 @@ int vf_main(void) {
     r = m_mod_ps_subscribe(B, "t", 0, NULL); VF_CHECK(r == 0, "B subscribes to t");
     r = m_mod_ps_subscribe(B, M_PS_MOD_STOPPED, 0, NULL); VF_CHECK(r == 0, "B subscribes to MOD_STOPPED");
     r = m_mod_ps_subscribe(B, "h", M_SRC_PRIO_HIGH, NULL); VF_CHECK(r == 0, "B subscribes to h with high priority");
+    r = m_mod_ps_subscribe(B, "l", M_SRC_PRIO_LOW, NULL); VF_CHECK(r == 0, "B subscribes to l with low priority");
 #if BATCH
     r = m_mod_set_batch_size(B, BATCH); VF_CHECK(r == 0, "batch size");
 #endif
@@ -74,11 +82,14 @@ int vf_main(void) {
     int exp[16]; int nexp = 0; _Bool pilled = 0; _Bool cpaused = 0;
     for (int i = 0; i < NS; i++) {
         unsigned char s = script[i];
-        if (((s >= 1 && s <= 5) || s == 11) && !pilled) exp[nexp++] = i;
+        if (((s >= 1 && s <= 5) || s == 11 || s == 12) && !pilled) exp[nexp++] = i;
         if (s == 7 && !pilled && !cpaused) { exp[nexp++] = i; cpaused = 1; }
         if (s == 8 && !pilled) exp[nexp++] = i;     /* B, PAUSED and subscribed, is told about its own pause like everybody else */
         if (s == 6) pilled = 1;
     }
+#ifdef SELFPILL
+    pilled = 1;
+#endif
     expect_total = nexp;
 #if MODE != 2
     r = m_ctx_dispatch(); VF_CHECK(r == 0, "loop starts");
@@ -92,6 +103,7 @@ int vf_main(void) {
         case 4: r = m_mod_ps_publish(C, "t", &pl[i], fl); VF_CHECK(r == 0, "publish accepted"); break;
         case 5: r = m_mod_ps_publish(A, NULL, &pl[i], fl); VF_CHECK(r == 0, "broadcast accepted"); break;
         case 11: r = m_mod_ps_publish(A, "h", &pl[i], fl); VF_CHECK(r == 0, "publish accepted"); break;
+        case 12: r = m_mod_ps_publish(A, "l", &pl[i], fl); VF_CHECK(r == 0, "publish accepted"); break;
         case 6: r = m_mod_ps_poisonpill(A, B); VF_CHECK(r == 0, "poison pill accepted for a RUNNING recipient"); break;
         case 7: r = m_mod_pause(C); break;
         case 8: r = m_mod_pause(B); VF_CHECK(r == 0, "pause B"); break;
